@@ -3,7 +3,9 @@ from ..facts import AnchorMissing, callee_def, op_place, op_const, is_bare, feas
 from ..util import (SUBR, RTRAIT, ends, site, fn_key, callee_method, require, has_call, has_field, find_dispatch,
                     closure_bodies_created_in, transitive_closures, deep_atoms, direct_field, direct_place,
                     edge_is_true, edges_where, unreachable_without_edges)
-from .. import drops, widths
+from .. import drops
+from ..widths import norm as widths_norm
+from .. import widths
 from .C07 import INFINITE
 
 EXPLANATION = (
@@ -95,7 +97,8 @@ def rule_a(ctx):
     names = {v["discr"]: v["name"] for v in info["variants"]}
     for (b, bb, t, states) in inv:
         pl = t["place"]
-        ex = b.expr(pl)
+        ex = widths_norm(b.canon(pl))
+        ex_readable = b.expr(pl)
         key = "%s:drop(%s)" % (fn_key(b), ex)
         s = t["span"]
         if not in_build(b):
@@ -353,7 +356,8 @@ def rule_d(ctx):
     counts = {}
     for (b, bb, t, states) in inv:
         pl = t["place"]
-        ex = b.expr(pl)
+        ex = widths_norm(b.canon(pl))
+        ex_readable = b.expr(pl)
         key = "%s:drop(%s)" % (fn_key(b), ex)
         s = t["span"]
         n += 1
